@@ -748,3 +748,38 @@ def _slot_of(node):
         if ks:
             return "returns" if "returns" in ks or "return_type" in ks else ks[0]
     return "params"
+
+
+def style_path_tag(prog, start, f, node=None):
+    """A spelling-free tag of the docstring-style path on which function f (and, inside it, `node`) runs when entered from
+    `start`: from the enum-like comparisons (`style is Style.rest`) guarding the references along a call chain start -> ... -> f
+    and guarding `node` inside f: 'rest', 'not-rest', ... or 'any'."""
+    def tag_of(guards):
+        for t, pol in reversed(guards):
+            if isinstance(t, ast.Compare) and len(t.ops) == 1 and isinstance(t.ops[0], (ast.Is, ast.Eq, ast.IsNot, ast.NotEq)) and isinstance(t.comparators[0], ast.Attribute):
+                neg = isinstance(t.ops[0], (ast.IsNot, ast.NotEq)) == pol
+                return "%s%s" % ("not-" if neg else "", t.comparators[0].attr)
+        return None
+
+    top = f
+    while top.parent_fn is not None:
+        top = top.parent_fn
+    reach = {id(x): x for x in prog.reachable([start])}
+
+    def chain(g, seen):
+        if g is start:
+            return []
+        for h in reach.values():
+            if h is g or id(h) in seen or h.parent_fn is not None:
+                continue
+            for n in ast.walk(h.node):
+                if isinstance(n, (ast.Name, ast.Attribute)) and isinstance(getattr(n, "ctx", None), ast.Load) and any(t is g for t in prog.resolve_expr_fn(n, n)):
+                    up = chain(h, seen | {id(g)})
+                    if up is not None:
+                        return up + list(expr_guards(n, stop=h.node))
+        return None
+
+    gs = chain(top, set()) or []
+    if node is not None:
+        gs = gs + list(expr_guards(node, stop=top.node))
+    return tag_of(gs) or "any"
